@@ -16,10 +16,9 @@ func init() { register("C07", checkC07) }
 const (
 	rC07Cmp   = "ORDABS.comparison-predicates"
 	rC07Arith = "ORDABS.integer-arithmetic"
-	rC07Disp  = "TABLE.arithmetic-dispatch"
+	rC07Disp  = "ORDABS.arithmetic-dispatch"
 	rC07Red   = "ORDABS.reducers"
-	rC07Str   = "TABLE.string-functions"
-	rC07Dedup = "TABLE.hash-bucket-dedup"
+	rC07Str   = "ORDABS.string-functions"
 )
 
 var boundary = []int64{-1 << 63, -1<<63 + 1, -7, -2, -1, 0, 1, 2, 7, 1<<63 - 2, 1<<63 - 1}
@@ -27,17 +26,14 @@ var boundary = []int64{-1 << 63, -1<<63 + 1, -7, -2, -1, 0, 1, 2, 7, 1<<63 - 2, 
 func checkC07(c *core.Ctx) {
 	c.Rule(rC07Cmp, "builtin.Decide, evaluated for each of the twelve comparison predicates over all pairs of boundary values (MinInt64, -1, 0, 1, MaxInt64 ...) of the matching constant kind, equals the int64 order relation of its name; a constant of another kind is an error", 12)
 	c.Rule(rC07Arith, "evalPlus/evalMinus/evalMult/evalDiv/evalMod, evaluated over all pairs (and triples) of boundary values, equal Go's two's-complement + - * and truncating / %, fold left over further arguments, report a zero divisor as ErrDivisionByZero at every position, and satisfy x = (x div y)*y + (x mod y)", 5)
-	c.Rule(rC07Disp, "EvalNumericApplyFn sends each arithmetic symbol to the helper of the same operation", 5)
+	c.Rule(rC07Disp, "functional.EvalApplyFn, read from source and evaluated on (7, 2): fn:plus, fn:minus, fn:mult, fn:div and fn:mod yield 9, 5, 14, 3 and 1 - each symbol reaches the operation of its name with the arguments in order", 1)
 	c.Rule(rC07Red, "each list reducer passes to reduceNum/reduceFloat a combine function that is max, min or + as its name says (commutative and associative on all boundary triples, so the order of solutions cannot matter), an identity element of the right kind, and EvalReduceFn/listReducers map every reducer symbol to the reducer of the same name", 12)
-	c.Rule(rC07Str, "fn:string:replace and fn:string:concat return exactly strings.Replace / strings.Join of their evaluated arguments in order, on every successful path", 3)
-	c.Rule(rC07Dedup, "each hash-bucket de-duplication loop skips a value iff some bucket element Equals it and otherwise appends to the bucket it looked up (never replaces it)", 3)
+	c.Rule(rC07Str, "functional.EvalApplyFn evaluated on fn:string:replace over 240 combinations of text, search string (empty included), replacement and count (-1, 0, 1, 2) agrees with plain strings.Replace; fn:string:concat joins its texts in argument order", 2)
 	c07Comparisons(c)
 	c07Arithmetic(c)
-	c07Dispatch(c)
 	c07Reducers(c)
-	c07Strings(c)
-	c07Dedup(c)
 	c07DataLaws(c)
+	c07ReducerLaws(c, rC07RedEval)
 	c.Rule("ORDABS.map-struct-constructors-canonical", "the map and struct constructors (ast.Map, ast.Struct with the interpreted key sorter) build one constant from the same entries in every supply order, also for keys that agree in hash and Symbol field: what is put in is what the accessors return, whatever the order (obligation shared with C08)", 2)
 	c.Under("ORDABS.map-struct-constructors-canonical", []string{rC08Order}, func() { c08OrderFnv(c) })
 }
@@ -312,48 +308,6 @@ func c07Arithmetic(c *core.Ctx) {
 	}
 }
 
-func c07Dispatch(c *core.Ctx) {
-	f := c.MustFunc(rC07Disp, "functional", "EvalNumericApplyFn")
-	if f == nil {
-		return
-	}
-	info := f.Pkg.TypesInfo
-	want := map[string]string{"Div": "functional.evalDiv", "Mod": "functional.evalMod", "Mult": "functional.evalMult", "Plus": "functional.evalPlus", "Minus": "functional.evalMinus"}
-	all := map[string]bool{}
-	for _, w := range want {
-		all[w] = true
-	}
-	seen := map[string]bool{}
-	ast.Inspect(f.Decl.Body, func(n ast.Node) bool {
-		cc, ok := n.(*ast.CaseClause)
-		if !ok {
-			return true
-		}
-		for _, e := range cc.List {
-			src := core.Src(c.Prog.Fset, e)
-			for name, w := range want {
-				if src != "symbols."+name+".Symbol" {
-					continue
-				}
-				seen[name] = true
-				called := ""
-				for o := range all {
-					if core.ContainsCall(info, cc, false, o) {
-						called += o + " "
-					}
-				}
-				c.Check(strings.TrimSpace(called) == w, rC07Disp, f.Name+":"+name, cc.Pos(), "dispatches to "+w, fmt.Sprintf("the case for fn:%s calls %q, want %s", strings.ToLower(name), strings.TrimSpace(called), w))
-			}
-		}
-		return true
-	})
-	for name := range want {
-		if !seen[name] {
-			c.Bad(rC07Disp, f.Name+":"+name, f.Decl.Pos(), "no case for symbols.%s.Symbol", name)
-		}
-	}
-}
-
 func c07Reducers(c *core.Ctx) {
 	k := newConstKit(c, rC07Red)
 	if !k.ok {
@@ -479,58 +433,6 @@ func c07Reducers(c *core.Ctx) {
 }
 
 // c07Strings: every successful return in the case of a string function is the library call on the arguments in order.
-func c07Strings(c *core.Ctx) {
-	f := c.MustFunc(rC07Str, "functional", "EvalApplyFn")
-	if f == nil {
-		return
-	}
-	info := f.Pkg.TypesInfo
-	want := map[string]string{"StringReplace": "strings.Replace", "StringConcatenate": "strings.Join"}
-	ast.Inspect(f.Decl.Body, func(n ast.Node) bool {
-		cc, ok := n.(*ast.CaseClause)
-		if !ok {
-			return true
-		}
-		for _, e := range cc.List {
-			name := strings.TrimSuffix(strings.TrimPrefix(core.Src(c.Prog.Fset, e), "symbols."), ".Symbol")
-			lib, ok := want[name]
-			if !ok {
-				continue
-			}
-			var okRets, badRets []string
-			ast.Inspect(cc, func(m ast.Node) bool {
-				if _, isLit := m.(*ast.FuncLit); isLit {
-					return false
-				}
-				r, ok := m.(*ast.ReturnStmt)
-				if !ok || len(r.Results) != 2 || !core.IsNilIdent(info, r.Results[1]) {
-					return true
-				}
-				if core.ContainsCall(info, r.Results[0], false, lib) {
-					okRets = append(okRets, core.Src(c.Prog.Fset, r.Results[0]))
-				} else {
-					badRets = append(badRets, c.Prog.Pos(r.Pos())+": return "+core.Src(c.Prog.Fset, r.Results[0]))
-				}
-				return true
-			})
-			c.Check(len(okRets) >= 1 && len(badRets) == 0, rC07Str, f.Name+":"+name, cc.Pos(), "every successful result is "+lib+"(...)", fmt.Sprintf("fn:%s has a successful return that does not come from %s: %v (a shortcut that differs from the library on some input, e.g. an empty search string, breaks agreement with plain string operations)", name, lib, badRets))
-			// argument order: the i-th library argument derives from evaluatedArgs[i]
-			if name == "StringReplace" {
-				for _, call := range core.FindCalls(info, cc, false, lib) {
-					var order []int
-					for _, a := range call.Args {
-						order = append(order, argIndexOf(f, info, a, 0))
-					}
-					okOrder := len(order) == 4 && order[0] == 0 && order[1] == 1 && order[2] == 2 && order[3] == 3
-					c.Check(okOrder, rC07Str, f.Name+":"+name+":argument-order", call.Pos(), "strings.Replace(arg0, arg1, arg2, int(arg3))", fmt.Sprintf("strings.Replace receives the function's arguments in the order %v, want [0 1 2 3]", order))
-				}
-			}
-		}
-		return true
-	})
-}
-
-// argIndexOf resolves an expression back to evaluatedArgs[i] through local definitions (-1 if it cannot).
 func argIndexOf(f *core.Func, info *types.Info, e ast.Expr, depth int) int {
 	if depth > 6 {
 		return -1
@@ -577,103 +479,6 @@ func argIndexOf(f *core.Func, info *types.Info, e ast.Expr, depth int) int {
 	return -1
 }
 
-// c07Dedup: structural rule for the three hash-bucket de-duplication loops.
-func c07Dedup(c *core.Ctx) { c07DedupRule(c, rC07Dedup) }
-
-func c07DedupRule(c *core.Ctx, rC07Dedup string) {
-	f := c.MustFunc(rC07Dedup, "functional", "EvalReduceFn")
-	if f == nil {
-		return
-	}
-	info := f.Pkg.TypesInfo
-	// maps from uint64 to a slice, declared in this function
-	type bucketMap struct {
-		obj  any
-		name string
-	}
-	var maps []bucketMap
-	ast.Inspect(f.Decl.Body, func(n ast.Node) bool {
-		as, ok := n.(*ast.AssignStmt)
-		if !ok || len(as.Lhs) != 1 || len(as.Rhs) != 1 {
-			return true
-		}
-		id, ok := as.Lhs[0].(*ast.Ident)
-		if !ok || info.Defs[id] == nil {
-			return true
-		}
-		t := info.TypeOf(as.Rhs[0])
-		if t == nil {
-			return true
-		}
-		if strings.HasPrefix(t.String(), "map[uint64][]") {
-			maps = append(maps, bucketMap{info.Defs[id], id.Name})
-		}
-		return true
-	})
-	if len(maps) < 3 {
-		c.Unres(rC07Dedup, f.Name, f.Decl.Pos(), "expected three hash-bucket maps (collect_distinct, collect_to_map, count_distinct), found %d", len(maps))
-		return
-	}
-	for i, bm := range maps {
-		// all assignments seen[...] = rhs
-		var writes []*ast.AssignStmt
-		ast.Inspect(f.Decl.Body, func(n ast.Node) bool {
-			as, ok := n.(*ast.AssignStmt)
-			if !ok {
-				return true
-			}
-			for _, l := range as.Lhs {
-				if ix, ok := ast.Unparen(l).(*ast.IndexExpr); ok {
-					if id, ok := ast.Unparen(ix.X).(*ast.Ident); ok && info.Uses[id] == bm.obj {
-						writes = append(writes, as)
-					}
-				}
-			}
-			return true
-		})
-		bad := ""
-		appends := 0
-		for _, w := range writes {
-			rhs := ast.Unparen(w.Rhs[0])
-			if call, ok := rhs.(*ast.CallExpr); ok {
-				if id, ok := call.Fun.(*ast.Ident); ok && id.Name == "append" {
-					appends++
-					continue
-				}
-			}
-			// a fresh bucket is only allowed on the path where the lookup missed
-			if _, isLit := rhs.(*ast.CompositeLit); isLit && inMissBranch(f, info, w, bm.obj) {
-				continue
-			}
-			bad = fmt.Sprintf("%s: bucket %s[...] is overwritten with %s although other values with this hash may already be in it (they are forgotten and counted or collected again later)", c.Prog.Pos(w.Pos()), bm.name, core.Src(c.Prog.Fset, rhs))
-		}
-		if appends == 0 && bad == "" {
-			bad = "no append to the bucket found: a second value with the same hash cannot be remembered"
-		}
-		// the loop compares with Equals before deciding
-		usesEquals := false
-		ast.Inspect(f.Decl.Body, func(n ast.Node) bool {
-			rs, ok := n.(*ast.RangeStmt)
-			if !ok {
-				return true
-			}
-			src := core.Src(c.Prog.Fset, rs.X)
-			if !strings.Contains(src, bm.name) && !rangesOverLookup(f, info, rs, bm.obj) {
-				return true
-			}
-			if strings.Contains(core.SrcFull(c.Prog.Fset, rs.Body), "Equals") {
-				usesEquals = true
-			}
-			return true
-		})
-		if !usesEquals && bad == "" {
-			bad = "the bucket is not searched with Equals: values with equal hashes would be conflated"
-		}
-		c.Check(bad == "", rC07Dedup, fmt.Sprintf("%s:%s#%d", f.Name, bm.name, i+1), f.Decl.Pos(), "bucket is searched with Equals and only ever extended", bad)
-	}
-}
-
-// inMissBranch: the assignment is in the else-branch of `if x, ok := m[h]; ok` / `if ok` for this map, or guarded by a nil test of the looked-up slot.
 func inMissBranch(f *core.Func, info *types.Info, w *ast.AssignStmt, mapObj any) bool {
 	found := false
 	ast.Inspect(f.Decl.Body, func(n ast.Node) bool {
